@@ -154,7 +154,10 @@ def got_pairs(res, c):
 def run_tab(w, shard, tier, acc, only=None):
     gl = graph_list(tier)
     idxs = list(range(shard, len(gl), NSHARD)) if only is None else [only]
-    for part in px.chunked(idxs, 60):
+    # a machine never gives heap back and the tabling library keeps its tables on it: a batch of 60
+    # four-node graphs grew a worker past 8 GB (16 workers exhausted the sandbox's memory, the kernel
+    # killed one and the run ended as a machinery failure); 12 graphs per machine stay far below that
+    for part in px.chunked(idxs, 12 if tier == "thorough" else 60):
         text = [":- use_module(library(tabling))."]
         jobs = []
         for gi in part:
